@@ -93,6 +93,11 @@ def build_property(ctx: Ctx, extra_targets: list[str] | None = None) -> dict:
                 ok = False
                 info["make_ok"] = False
                 info["make_log"] = pa.get("error", "")
+            elif ctx.tier == "thorough":
+                ck_ok, ck = coq.coqchk(pid)
+                info["coqchk"] = ck
+                if not ck_ok:
+                    ctx.broke("coqchk", json.dumps(ck)[:1500])
     if not info["make_ok"]:
         # name the first failing file / lemma from the log
         import re
@@ -145,6 +150,7 @@ def finish(ctx: Ctx, info: dict, level: str = "proof") -> int:
         "property_theorems": ob.get("property_theorems", []),
         "proof_files": ob.get("files", []),
         "print_assumptions": {"closed": pa.get("closed"), "with_axioms": pa.get("with_axioms", [])},
+        "coqchk": info.get("coqchk", "(thorough tier only)"),
         "ties": ctx.ties,
         "regen": info.get("regen", {}),
         "observations": ctx.observations,
